@@ -22,9 +22,9 @@ type c02Case struct {
 }
 
 func genC02(t *rapid.T) *c02Case {
-	cfg := gen.ImgCfg{MaxSide: 48, BigChance: 4, BigSide: 160, ThinPermille: 6}
+	cfg := gen.ImgCfg{MaxSide: 48, BigChance: 4, BigSide: 160, ThinPermille: 6, LargePermille: 3}
 	if tierThorough() {
-		cfg = gen.ImgCfg{MaxSide: 80, BigChance: 4, BigSide: 360, ThinPermille: 6}
+		cfg = gen.ImgCfg{MaxSide: 80, BigChance: 4, BigSide: 360, ThinPermille: 6, LargePermille: 3}
 	}
 	c := &c02Case{Img: gen.DrawImg(t, cfg)}
 	if rapid.IntRange(0, 2).Draw(t, "lossless") == 0 {
